@@ -121,7 +121,6 @@ Qed.
 (* 6. the deep expression of every well-formed surface tree (the deep parser always folds) is the reference semantics *)
 Theorem C02_deep_parse_is_reference :
   forall (D : Type) (C : carrier D) (tb : optable) (R : D -> D -> Prop),
-  wf_table tb = true ->
   (forall a, R a a) -> (forall a b, R a b -> R b a) -> (forall a b c, R a b -> R b c -> R a c) ->
   (forall k a a' b b', R a a' -> R b b' -> R (binf C k a b) (binf C k a' b')) ->
   (forall k a a', R a a' -> R (unf C k a) (unf C k a')) ->
@@ -134,8 +133,8 @@ Theorem C02_deep_parse_is_reference :
     eval_deep C e vals = Ok v /\
     R v (ref_chain C tb (find_parsed_vars (flatten c)) vals c).
 Proof.
-  intros D C tb R Hwt Hr Hs Ht Hb Hu Ha c vals Hwf Hlen.
-  exact (deep_parse_is_reference C tb Hwt R Hr Hs Ht Hb Hu Ha c vals Hwf Hlen).
+  intros D C tb R Hr Hs Ht Hb Hu Ha c vals Hwf Hlen.
+  exact (deep_parse_is_reference C tb R Hr Hs Ht Hb Hu Ha c vals Hwf Hlen).
 Qed.
 
 (* non-vacuity: 1+2+x*3*4 over a small table folds to two operators less and is the same term up to regrouping *)
